@@ -641,6 +641,25 @@ func updateOrder() bool {
 	return strings.Join(seq, ",") == strings.Join(want, ",")
 }
 
+// dbCalls lists, in source order, the methods called on sx.ipdb inside a handler.
+func dbCalls(fn string) string {
+	fd := findFunc("lib/server/netio.go", fn)
+	if fd == nil {
+		return "?"
+	}
+	var names []string
+	ast.Inspect(fd, func(n ast.Node) bool {
+		if c, ok := n.(*ast.CallExpr); ok {
+			name := selName(c.Fun)
+			if i := strings.Index(name, ".ipdb."); i >= 0 {
+				names = append(names, name[i+6:])
+			}
+		}
+		return true
+	})
+	return strings.Join(names, ",")
+}
+
 func paramList() ([]int, bool) {
 	fd := findFunc("lib/client/msgtmpl/request.go", "request")
 	if fd == nil {
@@ -750,6 +769,9 @@ func main() {
 		"gf_ipdb_methods_locked":      ipdbLocked(),
 		"gf_handler_started_by_value": handlerByValue(),
 		"gf_resolv_update_order":      updateOrder(),
+		// the database steps of the two handlers, as the model has them
+		"gf_discover_single_db_step": dbCalls("handleDiscover") == "OfferIP",
+		"gf_request_db_steps":        dbCalls("handleRequest") == "InManagedRange,LookupClientByDuid,HoldClient,UpdateClient",
 	}
 
 	var sb strings.Builder
